@@ -931,6 +931,9 @@ class Interp:
         if isinstance(v, Const) and isinstance(k, Const):
             try:
                 return Const(v.v[k.v])
+            except (IndexError, KeyError) as ex_:
+                # subscripting a constant (a string, a tuple, a table) with a constant that is not there raises, as in Python
+                raise _Raise(f"{type(ex_).__name__}: {ex_}", [c_.__name__ for c_ in type(ex_).__mro__])
             except Exception:
                 return Top("const subscript")
         if isinstance(v, Obj) and v.cls == "Group" and isinstance(k, Const):
@@ -1152,6 +1155,8 @@ class Interp:
             return self.iterate(self.call(self.getattr(v, "__iter__", node), [], {}, node), node)
         if isinstance(v, Const) and isinstance(v.v, (list, tuple, str, set, frozenset)):
             return [Const(x) for x in v.v]
+        if isinstance(v, Const) and hasattr(v.v, "keys") and hasattr(v.v, "__getitem__") and not isinstance(v.v, (str, bytes)):
+            return [Const(x) for x in v.v]
         if isinstance(v, Obj) and v.cls == "Group":
             data = v.fields.get("data")
             if isinstance(data, DictS):
@@ -1241,6 +1246,8 @@ class Interp:
             elts = value.elts
         elif isinstance(value, Const) and isinstance(value.v, (tuple, list)):
             elts = [Const(x) for x in value.v]
+        elif isinstance(value, Const) and hasattr(value.v, "keys") and hasattr(value.v, "__getitem__") and not isinstance(value.v, (str, bytes)):
+            elts = [Const(x) for x in value.v]  # a constant mapping (a pattern's groupindex): its keys
         elif isinstance(value, DictS):
             elts = [Const(k) for k in value.items]
         elif isinstance(value, ListOf) and not star:
